@@ -384,6 +384,76 @@ Section Heap.
     exists h' r, merged_data_heap h roots ty syn sec = Some (h', r) /\
                  heap_get h' r = Some (merged_data e ty syn sec).
   Proof. apply merge_over_heap_refines. Qed.
+
+  (* ---------------------------------------------------------------- Config.__init__ *)
+  (* the three merged_data calls of Config.__init__, one after the other on the same heap
+     (type and syntax are plain reads of user_config and passed in) *)
+  Fixpoint init_heap (roots : layer_refs) (ty syn : str) (secs : list str) (h : heap)
+    : option (heap * list (str * ref)) :=
+    match secs with
+    | [] => Some (h, [])
+    | sec :: rest =>
+        match merged_data_heap h roots ty syn sec with
+        | None => None
+        | Some (h1, r) =>
+            match init_heap roots ty syn rest h1 with
+            | None => None
+            | Some (h2, rs) => Some (h2, (sec, r) :: rs)
+            end
+        end
+    end.
+  Definition config_init_heap (h : heap) (roots : layer_refs) (ty syn : str) :=
+    init_heap roots ty syn init_sections h.
+
+  Lemma init_preserves roots ty syn secs : forall h h' rs,
+    init_heap roots ty syn secs h = Some (h', rs) ->
+    next_ref h <= next_ref h' /\
+    (forall a, a < next_ref h -> heap_get h' a = heap_get h a) /\
+    Forall (fun sr => next_ref h <= snd sr /\ snd sr < next_ref h') rs /\
+    NoDup (map snd rs) /\
+    Forall (fun sr => exists hi hi', merged_data_heap hi roots ty syn (fst sr) = Some (hi', snd sr) /\
+                                     heap_get h' (snd sr) = heap_get hi' (snd sr)) rs.
+  Proof.
+    induction secs as [|sec rest IH]; intros h h' rs H; simpl in H.
+    - inversion H; subst. repeat split; constructor.
+    - destruct (merged_data_heap h roots ty syn sec) as [[h1 r]|] eqn:E1; [|discriminate].
+      destruct (init_heap roots ty syn rest h1) as [[h2 rs2]|] eqn:E2; [|discriminate].
+      inversion H; subst h' rs. clear H.
+      destruct (merge_preserves_heap _ _ _ _ _ _ _ E1) as (P1 & _ & Pr & _ & Pn).
+      destruct (IH _ _ _ E2) as (Q0 & Q1 & Q2 & Q3 & Q4).
+      assert (Hr1 : r < next_ref h1) by (rewrite Pn, Pr; lia).
+      unfold next_ref, ref in *.
+      repeat split.
+      + lia.
+      + intros a Ha. rewrite Q1; [apply P1; exact Ha|lia].
+      + constructor; [simpl; lia|]. eapply Forall_impl; [|exact Q2]. simpl. intros sr [A B]. lia.
+      + simpl. constructor; [|exact Q3]. intros Hin. apply in_map_iff in Hin. destruct Hin as (sr & Hsr & Hin).
+        rewrite Forall_forall in Q2. specialize (Q2 sr Hin). lia.
+      + constructor; [|exact Q4]. simpl. exists h, h1. split; [exact E1|]. apply Q1. exact Hr1.
+  Qed.
+
+  (* PURITY of Config.__init__: the three merges leave every pre-existing object as it was,
+     give three distinct new objects, and a later merge never touches an earlier result *)
+  Theorem config_init_preserves_heap h roots ty syn h' rs :
+    config_init_heap h roots ty syn = Some (h', rs) ->
+    (forall a, a < next_ref h -> heap_get h' a = heap_get h a) /\
+    map fst rs = init_sections /\
+    Forall (fun sr => next_ref h <= snd sr /\ heap_get h (snd sr) = None) rs /\
+    NoDup (map snd rs) /\
+    Forall (fun sr => exists hi hi', merged_data_heap hi roots ty syn (fst sr) = Some (hi', snd sr) /\
+                                     heap_get h' (snd sr) = heap_get hi' (snd sr)) rs.
+  Proof.
+    intros H. unfold config_init_heap in H.
+    destruct (init_preserves _ _ _ _ _ _ _ H) as (_ & Q1 & Q2 & Q3 & Q4).
+    repeat split; try assumption.
+    - clear Q1 Q2 Q3 Q4. revert h h' rs H. induction init_sections as [|sec rest IH]; intros h h' rs H; simpl in H.
+      + inversion H. reflexivity.
+      + destruct (merged_data_heap h roots ty syn sec) as [[h1 r]|]; [|discriminate].
+        destruct (init_heap roots ty syn rest h1) as [[h2 rs2]|] eqn:E2; [|discriminate].
+        inversion H; subst. simpl. f_equal. apply (IH _ _ _ E2).
+    - eapply Forall_impl; [|exact Q2]. simpl. intros sr [A B]. split; [exact A|].
+      unfold heap_get. apply nth_error_None. exact A.
+  Qed.
 End Heap.
 
 Arguments val V : clear implicits.
